@@ -21,6 +21,7 @@ PYVC_MODULES = [
     "contracts.hamiltonians",
     "contracts.modes",
     "contracts.contraction",
+    "contracts.koszul",
 ]
 
 BASE = [A_BUILTINS, A_INT, A_TERM, A_NUMPY, A_BOUNDED, A_USER]
@@ -42,7 +43,7 @@ _ALL = {
         "Proof core: axes parsing / pairing bookkeeping obligations of the contraction code. Element-level equality with the dense contraction is numpy semantics and is decided by the bounded tier: exact comparison (integer data) against np.tensordot/np.einsum/np.trace on an independent densifier, all modes.",
     ),
     "C03": _p(
-        ["bounded.run_C03"],
+        ["bounded.run_C03", "bounded.run_koszul"],
         "other",
         "Proof core: each sign-table operation multiplies the pending sign of exactly the stored sectors by the specified factor (parity sum for phase_flip, ghost Koszul sign for phase_transpose) and leaves everything else untouched, out of place with frames; calc_phase_permutation reversal branch. Bounded: element-exact comparison with an independent graded (Grassmann) tensor calculator validated against a brute-force anticommuting-polynomial evaluator.",
     ),
